@@ -188,6 +188,31 @@ def run(ctx):
                         texts[rec["id"]] = text
                         k += 1
                         ctx.evaluations += 1
+    # directed: two sections whose bodies are DIFFERENT lists of lines that concatenate to the same string (a line break moved
+    # by one character), with equal bodies and near-equal bodies next to them; A's body is "arbitrary content" for B
+    pairs = [(["  1 = N 0 0", "96 = N 1 0"], ["  1 = N 0 09", "6 = N 1 0"]),
+             (["  1 = N 0 0", " 96 = N 1 0"], ["  1 = N 0 0 96 = N 1 0"]),
+             (["  5 = N 2 10", "  5 = S 2 3"], ["  5 = N 2 1", "0  5 = S 2 3"]),
+             (["  5 = E solo", "  9 = N 0 0"], ["  5 = E solo  9", " = N 0 0"]),
+             (["  7 = N 1 0"], ["  7 = N 1 0"]), (["  7 = N 1 0", ""], ["  7 = N 1 0"])]
+
+    def build_raw(order, raw):
+        lines = section("Song", SONG) + section("SyncTrack", SYNC) + section("Events", EVENTS)
+        for h in order:
+            lines += section(h, raw[h], indent="")
+        return "\n".join(lines) + "\n"
+    k = 0
+    for a_body, b_body in pairs:
+        for a_h, b_h in (("ExpertSingle", "HardSingle"), ("EasyDrums", "ExpertKeyboard")):
+            for first, second in ((a_body, b_body), (b_body, a_body)):
+                for want in (None, [b_h], [a_h, b_h]):
+                    raw = {a_h: first, b_h: second}
+                    ref = {a_h: ["  400 = N 3 0", "  500 = E x"], b_h: second}
+                    rec, text = record_from_texts(f"cat{k}", build_raw([a_h, b_h], raw), build_raw([a_h, b_h], ref), [a_h, b_h], {a_h}, want, forms[k % 3])
+                    recs.append(rec)
+                    texts[rec["id"]] = text
+                    k += 1
+                    ctx.evaluations += 1
     by_id = {x["id"]: x for x in recs}
     for rid, p, clause in ctx.validate(recs):
         rec = by_id[rid]
